@@ -1232,7 +1232,7 @@ func (e *Engine) execSelect(st *State, fr *Frame, x *ssa.Select) {
 			vals = append(vals, s.freshVal("selrecv", tup.At(i).Type()))
 		}
 		f.regs[x] = Val{T: x.Type(), Tup: vals}
-		s.trace = append(s.trace, fmt.Sprintf("%s:select=%d", f.fn.Name(), idx))
+		s.trace = append(s.trace[:len(s.trace):len(s.trace)], fmt.Sprintf("%s:select=%d", f.fn.Name(), idx))
 		if idx >= 0 && idx < n {
 			e.eventSelect(s, f, x, idx)
 		}
